@@ -77,9 +77,11 @@ bool SerialAssembleAction::startThisAction(Action *action)
 
 void SerialAssembleAction::stopCurrAction()
 {
+    //! 先清除登记再 stop()：子动作的 final 回调里若重新启动了本动作，新登记的当前子动作不能被这里清掉
     if (curr_action_ != nullptr) {
-        curr_action_->stop();
+        auto action = curr_action_;
         curr_action_ = nullptr;
+        action->stop();
     }
 }
 
